@@ -31,17 +31,36 @@ class SemgrepLocation(SarifLocation):
         snippet = (
             sarif_location["physicalLocation"]["region"].get("snippet", {}).get("text")
         )
+        snippet_lines = snippet.splitlines() if snippet else []
         start = LineInfo(
             line=sarif_location["physicalLocation"]["region"]["startLine"],
-            column=sarif_location["physicalLocation"]["region"]["startColumn"],
+            column=_character_column(
+                snippet_lines[:1],
+                sarif_location["physicalLocation"]["region"]["startColumn"],
+            ),
             snippet=snippet,
         )
         end = LineInfo(
             line=sarif_location["physicalLocation"]["region"]["endLine"],
-            column=sarif_location["physicalLocation"]["region"]["endColumn"],
+            column=_character_column(
+                snippet_lines[-1:],
+                sarif_location["physicalLocation"]["region"]["endColumn"],
+            ),
             snippet=snippet,
         )
         return cls(file=file, start=start, end=end)
+
+
+def _character_column(snippet_line: list[str], column: int) -> int:
+    """
+    Semgrep counts columns in UTF-8 bytes while libcst counts characters. The
+    snippet holds the complete source lines of the region, so a byte column
+    can be converted whenever the line has non-ASCII text before it.
+    """
+    if not snippet_line or snippet_line[0].isascii():
+        return column
+    prefix = snippet_line[0].encode("utf-8")[: column - 1]
+    return len(prefix.decode("utf-8", errors="ignore")) + 1
 
 
 class SemgrepResult(SarifResult):
